@@ -11,7 +11,7 @@ from ..gen.render import render_feature, render_fragment
 
 ID = "C05"
 LEVEL = "fault_enumeration"
-LANGS = ["en", "de", "fr", "ht", "zh-CN", "ru"]
+LANGS = ["en", "de", "fr", "ht", "zh-CN", "ru", "em"]      # (em: every keyword is a pictograph -- keyword lines that do not start with a letter)
 ENTRY_POINTS = ["feature", "rule", "scenario", "steps", "tags"]
 RULE = ("(a) line soups of 1-12 lines drawn from a pool of keyword lines (every structural keyword and step keyword of "
         "%s), tag lines (well formed and malformed), table rows (well formed, ragged, unterminated), doc-string "
